@@ -128,6 +128,7 @@ type VC struct {
 	top      *Frame
 	modLocs  []ModLoc // frame of the function under verification
 	modAll   bool
+	modHeap  bool
 	checkFrame bool
 	discovery int
 	inlineDepth int
@@ -570,8 +571,11 @@ func (vc *VC) frameCheck(heap, idx string, pos token.Pos) {
 	if !vc.checkFrame || vc.modAll || vc.discovery > 0 {
 		return
 	}
+	if vc.modHeap && !strings.HasPrefix(heap, "G.") {
+		return
+	}
 	var alts []string
-	if idx != "" {
+	if idx != "" && !strings.HasPrefix(heap, "G.") {
 		alts = append(alts, vc.isFresh(idx))
 	}
 	for _, m := range vc.modLocs {
